@@ -36,9 +36,18 @@ impl<const N: usize, Value> IndexMap<N, Value> {
         }
     }
 
-    #[inline(always)]
+    #[inline]
     pub(crate) unsafe fn delete(&mut self, index: usize) {
-        *self.index.get_unchecked_mut(index) = Self::NULL
+        let slot = *self.index.get_unchecked(index);
+        if slot != Self::NULL {
+            // actually remove the value: a stale `(index, value)` left in `values`
+            // would be yielded by `iter` again as soon as `index` is set anew
+            self.values.swap_remove(slot as usize);
+            if let Some((moved, _)) = self.values.get(slot as usize) {
+                *self.index.get_unchecked_mut(*moved) = slot
+            }
+            *self.index.get_unchecked_mut(index) = Self::NULL
+        }
     }
 
     #[inline(always)]
